@@ -356,6 +356,50 @@ def execute(case):
                 pos = "first" if fault["at"] == 0 else "last" if fault["at"] == nw - 1 else ("header" if fault["at"] % 3 != 2 else "payload")
                 states.append(seeds.h64("fault", fault["kind"], pos, type(exc).__name__))
                 log.append((i, "save_fault", fault["kind"], fault["at"], type(exc).__name__, len(part)))
+            elif k == "refused_save":
+                # a plain attribute briefly holds a value that does not fit its binary slot: the save is refused by
+                # the packer; the caller puts the old value back.  The object is what it was, and so is its save
+                if Y is None:
+                    continue
+                from rv.synth import Synth as _Synth
+
+                if isinstance(obj, _Synth):
+                    mods_ = [obj.module] if obj.module is not None else []
+                    proj_ = None
+                else:
+                    mods_ = [m for m in obj.modules if m is not None]
+                    proj_ = obj
+                if not mods_:
+                    continue
+                m_ = mods_[op.get("m", 0) % len(mods_)]
+                tg = builder.unencodable_targets(m_, proj_)
+                o_, attr, val = tg[op.get("v", 0) % len(tg)]
+                if not hasattr(o_, attr):
+                    continue
+                old_val = getattr(o_, attr)
+                try:
+                    setattr(o_, attr, val)
+                except (KeyboardInterrupt, HarnessTimeout):
+                    raise
+                except Exception as e_:
+                    if not env.raised_in_rv(e_):
+                        raise
+                    continue  # validated on assignment: nothing unencodable got in
+                try:
+                    _, exc_, _, _ = save(obj)
+                finally:
+                    setattr(o_, attr, old_val)
+                fired["save_refused_by_packer" if exc_ is not None else "unencodable_value_saved"] = fired.get("save_refused_by_packer" if exc_ is not None else "unencodable_value_saved", 0) + 1
+                Yc, exc2, _, _ = save(obj)
+                if exc2 is not None or Yc != Y:
+                    d = first_diff_chunk(Y, Yc) if exc2 is None else {"chunk": "exception:" + type(exc2).__name__}
+                    violations.append(_v("clean_save_after_aborted_save_identical", when="refused:" + attr, chunk=d["chunk"], detail={"op": i, "file": label}))
+                Yc2, exc3, _, _ = save(obj)
+                if exc3 is not None or Yc2 != Y:
+                    violations.append(_v("clean_save_after_aborted_save_identical", when="refused:" + attr + ":second", chunk="?", detail={"op": i, "file": label}))
+                nontrivial = True
+                states.append(seeds.h64("refused", attr, type(exc_).__name__))
+                log.append((i, "refused_save", attr, type(exc_).__name__))
             elif k == "abandon":
                 # a save that is started and abandoned: the chunks() generator is advanced `at`
                 # chunks and then dropped (closed); the object must be unchanged and still saveable
@@ -481,6 +525,9 @@ def generate_for(spec, r, faulty=True):
             ops.append({"k": "save_fault", "fault": {"kind": kind, "at": at}})
         if r.random() < 0.3:
             ops.append({"k": "abandon", "at": r.choice([0, 1, 2, r.randrange(40), r.randrange(400)])})
+        if r.random() < 0.35:
+            for _ in range(r.choice((1, 1, 2))):
+                ops.append({"k": "refused_save", "m": r.randrange(100), "v": r.randrange(1000)})
         if r.random() < 0.3:
             ops.append({"k": "cycle", "n": 1})
     return ops
